@@ -388,3 +388,50 @@ Proof.
   - destruct (f_gsub f); [reflexivity|].
     match goal with |- match ?x with _ => _ end = _ => destruct x; reflexivity end.
 Qed.
+
+(* ---------- canonical values are fixed ---------- *)
+
+Lemma codec_time_representable t : time_representable t = true -> codec_time t = t.
+Proof.
+  destruct t as [u|]; [|reflexivity]. cbn [time_representable codec_time]. intros H.
+  assert (E : (u - zero1904 =? 0) = false) by lia. rewrite E. reflexivity.
+Qed.
+
+Lemma round16_mult x : x mod 65536 = 0 -> round16 x * 65536 = x.
+Proof. intros H. unfold round16. destruct (0 <=? x) eqn:E; lia. Qed.
+
+Theorem normalize_canonical f : canonical f = true -> normalize f = f.
+Proof.
+  unfold canonical. intros H.
+  repeat match type of H with _ && _ = true => apply andb_prop in H as [H ?] end.
+  apply font_ext;
+    (unfold normalize; unfold norm_height;
+     cbn [f_family f_width f_weight f_regular f_bold f_italic f_oblique f_serif f_script f_cpr f_version
+          f_ctime f_mtime f_descr f_sample f_copyright f_trademark f_license f_licurl f_perm f_upm
+          f_asc f_desc f_gap f_cap f_xh f_angle f_upos f_uthick f_outl f_cmap f_gdef f_gsub f_gpos];
+     try reflexivity).
+  - (* regular *)
+    destruct (f_regular f), (f_bold f), (f_italic f), (negb (f_angle f =? 0)), (f_oblique f), (name_says_bold f);
+      cbn in *; try reflexivity; try discriminate.
+  - (* bold *)
+    destruct (f_regular f), (f_bold f), (f_italic f), (name_says_bold f); cbn in *; try reflexivity; try discriminate.
+  - (* italic *)
+    destruct (f_italic f), (negb (f_angle f =? 0)), (f_oblique f); cbn in *; try reflexivity; try discriminate.
+  - destruct (f_serif f), (f_script f); cbn in *; try reflexivity; try discriminate.
+  - apply N.eqb_eq. assumption.
+  - apply codec_time_representable. assumption.
+  - apply codec_time_representable. assumption.
+  - unfold norm_perm.
+    match goal with Hp : (_ || _ || _ || _) = true |- _ =>
+      destruct (f_perm f =? 1) eqn:E1, (f_perm f =? 2) eqn:E2, (f_perm f =? 3) eqn:E3; cbn [orb]; try reflexivity;
+      rewrite ?orb_false_r in Hp; apply Z.eqb_eq in Hp; symmetry; exact Hp end.
+  - match goal with Hc : (0 <? f_cap f) = true |- _ => rewrite Hc end.
+    apply height_fallback_nonzero. lia.
+  - match goal with Hc : (0 <? f_xh f) = true |- _ => rewrite Hc end.
+    apply height_fallback_nonzero. lia.
+  - apply round16_mult. lia.
+  - apply round16_mult. lia.
+  - destruct (f_gsub f); [reflexivity|].
+    match goal with Hg : (is_some None || _) = true |- _ => cbn [is_some orb] in Hg;
+      destruct (std_ligatures f); [discriminate|reflexivity] end.
+Qed.
